@@ -220,10 +220,15 @@ func (m *Machine) checkModel(extra *Term) (SatResult, Model) {
 	n := m.em.Name(extra)
 	var vars []string
 	var vts []*Term
+	isFP := map[*Term]bool{}
 	for _, v := range m.ctx.Vars {
 		if sn, ok := m.em.names[v]; ok {
 			vars = append(vars, sn)
 			vts = append(vts, v)
+		} else if fn, ok := m.em.fpOf[v]; ok {
+			vars = append(vars, fn)
+			vts = append(vts, v)
+			isFP[v] = true
 		}
 	}
 	m.sol.SetTimeout(m.cfg.FeasTimeoutMs)
@@ -238,6 +243,12 @@ func (m *Machine) checkModel(extra *Term) (SatResult, Model) {
 	md := Model{}
 	for i, v := range vts {
 		if val, ok := model[vars[i]]; ok {
+			if isFP[v] {
+				if bi, ok := parseSMTFloatBits(val, v.Sort.W); ok {
+					md[v] = bi
+				}
+				continue
+			}
 			if bi, ok := parseSMTInt(val); ok {
 				if v.Sort.K == KInt {
 					bi = wrapBig(bi, v.Sort)
@@ -276,8 +287,10 @@ func (m *Machine) check(extra *Term, wantModel bool) (SatResult, map[string]stri
 	var vars []string
 	if wantModel {
 		for _, v := range m.ctx.Vars {
-			if _, ok := m.em.names[v]; ok {
-				vars = append(vars, m.em.names[v])
+			if sn, ok := m.em.names[v]; ok {
+				vars = append(vars, sn)
+			} else if fn, ok := m.em.fpOf[v]; ok {
+				vars = append(vars, fn)
 			}
 		}
 	}
@@ -305,6 +318,12 @@ func (m *Machine) check(extra *Term, wantModel bool) (SatResult, map[string]stri
 			}
 			sn, ok := m.em.names[v]
 			if !ok {
+				if fn, okf := m.em.fpOf[v]; okf {
+					if bi, okb := parseSMTFloatBits(model[fn], v.Sort.W); okb {
+						out[v.Name] = bi.String()
+						continue
+					}
+				}
 				// variable never reached the solver: unconstrained, pick zero
 				out[v.Name] = "0"
 				continue
